@@ -581,7 +581,6 @@ func Scenarios() []*Scenario {
 	sys("pause", FPause, func(s *Scn) *node.Leg { return s.U.Pause(0, s.F1) })
 	sys("unpause", FUnPause, func(s *Scn) *node.Leg { gen.Must(s.U.Pause(0, s.F1), "pause"); return s.U.UnPause(0, s.F1) })
 	sys("handover-same", FHandOver, func(s *Scn) *node.Leg { return s.U.HandOver(s.A, s.Same, s.SFT) })
-	sys("handover-self", FHandOver, func(s *Scn) *node.Leg { return s.U.HandOver(s.A, s.A, s.SFT) })
 	sys("handover-cross-first", FHandOver, func(s *Scn) *node.Leg { return s.U.HandOver(s.A, s.Other, s.SFT) })
 	sys("handover-cross-deliver", FHandOver, func(s *Scn) *node.Leg {
 		gen.Must(s.U.HandOver(s.A, s.Other, s.SFT), "first leg")
